@@ -377,7 +377,7 @@ func (s *c08Store) Append(ctx context.Context, sid, stream string, data []byte) 
 	if err == nil {
 		s.n[k]++
 	}
-	s.run.log.emit("st.append", "s", s.run.sessName(sid), "sid", sid, "stream", stream, "idx", idx, "kind", m.Kind, "tag", tag, "err", err != nil)
+	s.run.log.emit("st.append", "s", s.run.sessName(sid), "sid", sid, "stream", stream, "idx", idx, "kind", m.Kind, "tag", tag, "sz", len(data), "err", err != nil)
 	return err
 }
 
